@@ -313,6 +313,16 @@ void vp_c17_trace(int x, int y, vp_obs& o)
   m.p(y, x);          // no tracer is alive any more: nothing is traced
   o.x = x; o.y = y; o.extra = 0;
 }
+// C08: THROW - the side effects run first, the exception reaches the caller, the call still counts as handled
+void vp_c08_throw(int k, vp_obs& o)
+{
+  vp_M9 m;
+  o.x = 0; o.extra = 0;
+  auto e = NAMED_REQUIRE_CALL(m, z()).LR_SIDE_EFFECT(o.x = k).THROW(7);
+  try { o.extra = m.z(); o.ret = 0; }
+  catch (...) { o.ret = 1; }
+  o.y = e->is_saturated() && e->is_satisfied();
+}
 void vp_build_objects()
 {
   vp_M m; trompeloeil::sequence s;
